@@ -217,6 +217,9 @@ func (l *List) M__setitem__(key, value Object) (Object, error) {
 			return nil, err
 		}
 		if step == 1 {
+			if stop < start {
+				stop = start
+			}
 			// Make a copy of the tail
 			tailSlice := l.Items[stop:]
 			tail := make([]Object, len(tailSlice))
@@ -235,10 +238,8 @@ func (l *List) M__setitem__(key, value Object) (Object, error) {
 			if len(newItems) != slicelength {
 				return nil, ExceptionNewf(ValueError, "attempt to assign sequence of size %d to extended slice of size %d", len(newItems), slicelength)
 			}
-			j := 0
-			for i := start; i < stop; i += step {
+			for i, j := start, 0; j < slicelength; i, j = i+step, j+1 {
 				l.Items[i] = newItems[j]
-				j++
 			}
 		}
 	} else {
@@ -259,17 +260,22 @@ func (a *List) DelItem(i int) {
 // Removes items from a list
 func (a *List) M__delitem__(key Object) (Object, error) {
 	if slice, ok := key.(*Slice); ok {
-		start, stop, step, _, err := slice.GetIndices(len(a.Items))
+		start, stop, step, slicelength, err := slice.GetIndices(len(a.Items))
 		if err != nil {
 			return nil, err
 		}
 		if step == 1 {
+			if stop < start {
+				stop = start
+			}
 			a.Items = append(a.Items[:start], a.Items[stop:]...)
 		} else {
-			j := 0
-			for i := start; i < stop; i += step {
-				a.DelItem(i - j)
-				j++
+			if step < 0 {
+				// delete the same items in ascending order
+				start, step = start+step*(slicelength-1), -step
+			}
+			for j := 0; j < slicelength; j++ {
+				a.DelItem(start + j*step - j)
 			}
 		}
 	} else {
